@@ -49,8 +49,10 @@ for mid in ids:
             t0 = time.time()
             e = dict(os.environ, VERIF_REPO=d, VERIF_EVIDENCE_DIR=os.path.join(d, 'evidence'))
             r = subprocess.run([os.path.join(HERE, 'check'), c, '--tier', tier], cwd=HERE, env=e, capture_output=True, text=True)
-            verdict = {0: 'MISSED', 1: 'caught', 2: 'inconclusive'}.get(r.returncode, 'error %d' % r.returncode)
             first = [l for l in r.stdout.splitlines() if l.startswith('VIOLATION')][:1]
+            verdict = {0: 'MISSED', 1: 'caught', 2: 'inconclusive'}.get(r.returncode, 'error %d' % r.returncode)
+            if verdict == 'caught' and not first:
+                verdict = 'error (exit 1 without a VIOLATION line)'
             results.setdefault(mid, {})[c + ':' + tier] = verdict
             print('%-6s %-4s %-12s %5.0fs  %s' % (mid, c, verdict, time.time() - t0, (first[0][:230] if first else r.stdout.strip().splitlines()[-1][:200] if r.stdout.strip() else r.stderr[-200:])))
     finally:
